@@ -305,8 +305,8 @@ def registry():
     simple('optima_func_tt_beam', lambda L, rk: [('k%d-%s' % (k, ra), [_base(L, rk)[0]], dict(k=k, ret_all=ra)) for k in (1, 4) for ra in (False, True)])
     # --- sample ------------------------------------------------------------------------------------------------------------------------------------
     Ypos = lambda L, rk: ttl(space.tt([3, 2, 3], [1, rk, rk, 1], 'genpos', 0), L)
-    simple('sample', lambda L, rk: [('m%d' % m, [Ypos(L, rk), m], dict(seed=0)) for m in (1, 4)])
-    simple('sample_square', lambda L, rk: [('u%s' % u, [_base(L, rk)[0], 3], dict(unique=u, seed=0)) for u in (True, False)])
+    simple('sample', lambda L, rk: [('m%d' % m, [Ypos(L, rk), m], dict(seed=0)) for m in (1, 4, 300)])      # 300 draws: any change of the distribution shows in the sample
+    simple('sample_square', lambda L, rk: [('u%s' % u, [_base(L, rk)[0], 3], dict(unique=u, seed=0)) for u in (True, False)] + [('m300', [_base(L, rk)[0], 300], dict(unique=False, seed=0))])
     simple('sample_lhs', lambda L, rk: [('', [lay(np.array([3, 2, 3]), L), 5], dict(seed=0)), ('list', [[3, 2], 4], dict(seed=1))])
     simple('sample_rand', lambda L, rk: [('', [lay(np.array([3, 2, 3]), L), 5], dict(seed=0))])
     simple('sample_rand_poi', lambda L, rk: [('', [lay(np.array([-1., 0.]), L), lay(np.array([1., 2.]), L), 4], dict(seed=0))])
